@@ -804,7 +804,8 @@ def getSpec {ρ : Type} (z : ρ) (mean : List ρ → ρ) (layers : List (Arr2 (L
 inductive Step (ρ : Type)
   /-- a call of `get` -/
   | get (a : GetArgs)
-  /-- `laser.data = [...]` with new arrays, and the methods that rebuild every layer (`rename`, `add`, `remove`) -/
+  /-- `laser.data = [...]` with new arrays, and the methods that rebuild every layer (`rename`, `add`, `remove`); a
+  structured dtype has at least one field (no names: outside the model) -/
   | setData (layers : List (Arr2 (List ρ))) (names : List String)
   /-- `laser.data[i] = array` (a new array) -/
   | setItem (i : Nat) (layer : Arr2 (List ρ))
@@ -823,6 +824,7 @@ def Laser.step {ρ : Type} (z : ρ) (mean : List ρ → ρ) (o : Laser ρ) :
     Step ρ → Option (Laser ρ × Option (GetOut (List ρ)))
   | .get a => (o.get z mean a).map (fun p => (p.1, some p.2))
   | .setData ls names =>
+    if names.isEmpty then none else
     some ({ o with heap := o.heap ++ ls, data := (List.range ls.length).map (fun k => o.heap.length + k), names := names }, none)
   | .setItem i l =>
     if i < o.data.length then some ({ o with heap := o.heap ++ [l], data := o.data.set i o.heap.length }, none) else none
@@ -858,7 +860,7 @@ structure Store (ρ : Type) where
 def Store.step {ρ : Type} (z : ρ) (mean : List ρ → ρ) (s : Store ρ) :
     Step ρ → Option (Store ρ × Option (GetOut (List ρ)))
   | .get a => (getSpec z mean s.layers s.names s.cal s.cfg a).map (fun out => (s, some out))
-  | .setData ls names => some ({ s with layers := ls, names := names }, none)
+  | .setData ls names => if names.isEmpty then none else some ({ s with layers := ls, names := names }, none)
   | .setItem i l => if i < s.layers.length then some ({ s with layers := s.layers.set i l }, none) else none
   | .write i r c px =>
     match s.layers[i]? with
@@ -886,8 +888,10 @@ def Laser.load {ρ : Type} (layers : List (Arr2 (List ρ))) (names : List String
 def Laser.store {ρ : Type} (o : Laser ρ) : Store ρ :=
   { layers := o.data.filterMap (fun id => o.heap[id]?), names := o.names, cal := o.cal, cfg := o.cfg }
 
-/-- every layer is a buffer that exists, no two layers share a buffer -/
-def Laser.WF {ρ : Type} (o : Laser ρ) : Prop := (∀ id ∈ o.data, id < o.heap.length) ∧ o.data.Nodup
+/-- every layer is a buffer that exists, no two layers share a buffer, the dtype has at least one field -/
+def Laser.WF {ρ : Type} (o : Laser ρ) : Prop :=
+  (∀ id ∈ o.data, id < o.heap.length) ∧ (∀ (i j id : Nat), o.data[i]? = some id → o.data[j]? = some id → i = j) ∧
+    o.names ≠ []
 
 /-- `self.calibration` after a change of the element set, as `SRRLaser.rename / remove / add` leave it (`ident` = the
 default `Calibration()`); the other changes of the stack do not touch it -/
